@@ -20,17 +20,17 @@ import (
 type V struct{ X interface{} }
 
 type jt struct {
-	I  *string                     `json:"i,omitempty"`
-	U  *string                     `json:"u,omitempty"`
-	F  *string                     `json:"f,omitempty"`
-	G  string                      `json:"~,omitempty"`
-	S  *string                     `json:"s,omitempty"`
-	SB *string                     `json:"sb,omitempty"`
-	T  []int64                     `json:"t,omitempty"`
-	A  *[]V                        `json:"a,omitempty"`
-	M  *map[string]V               `json:"m,omitempty"`
-	B  *bool                       `json:"b,omitempty"`
-	N  *bool                       `json:"nil,omitempty"`
+	I  *string                    `json:"i,omitempty"`
+	U  *string                    `json:"u,omitempty"`
+	F  *string                    `json:"f,omitempty"`
+	G  string                     `json:"~,omitempty"`
+	S  *string                    `json:"s,omitempty"`
+	SB *string                    `json:"sb,omitempty"`
+	T  []int64                    `json:"t,omitempty"`
+	A  *[]V                       `json:"a,omitempty"`
+	M  *map[string]V              `json:"m,omitempty"`
+	B  *bool                      `json:"b,omitempty"`
+	N  *bool                      `json:"nil,omitempty"`
 	X  map[string]json.RawMessage `json:"-"`
 }
 
